@@ -41,6 +41,7 @@ CONSTANTS
     MinDists,   \* min_distance arguments of remove_overlapping
     TlLists,    \* set of index sequences into trks (arguments of DropletTrackList(..))
     MinDurs,    \* min_duration arguments of remove_short_tracks
+    TrackMethods, \* arguments of from_emulsion_time_course: records [meth |-> "overlap" | "distance", md |-> max_dist or -1]
     MaxDrops, MaxEms, MaxRefs, MaxEv, MaxTcs, MaxTrks, MaxLen, Depth,
     Ops,        \* names of the operations enabled in this instance
     Observe(_, _, _)   \* (op, new state, error): print the transition (model checking) or
@@ -145,9 +146,30 @@ AllDim1(vs) == \A i \in Range(Len(vs)) : Dim(vs[i].k) = 1
 Nearest(ts, t) == CHOOSE i \in Range(Len(ts)) : \A j \in Range(Len(ts)) :
                      Abs(ts[i] - t) < Abs(ts[j] - t) \/ (Abs(ts[i] - t) = Abs(ts[j] - t) /\ i <= j)
 Duration(ts) == IF Len(ts) = 0 THEN 0 ELSE ts[Len(ts)] - ts[1]
+\* `==` between collections is defined through the droplets' `==`, which compares two droplets of ONE class and layout
+\* parameter by parameter (an unset width equals an unset width); comparisons across layouts are not modelled ("na")
+OneKind(vs, ws) == \A i \in Range(Len(vs)), j \in Range(Len(ws)) : vs[i].k = ws[j].k
+SeqEq(vs, ws) == IF Len(vs) # Len(ws) THEN "F" ELSE IF ~OneKind(vs, ws) THEN "na" ELSE IF vs = ws THEN "T" ELSE "F"
+EmEq(s, e1, e2) == SeqEq(Vals(s, s.ems[e1].mem), Vals(s, s.ems[e2].mem))
+RECURSIVE AllT(_)
+AllT(q) == IF Len(q) = 0 THEN "T" ELSE IF Head(q) = "T" THEN AllT(Tail(q)) ELSE Head(q)   \* python stops at the first pair that is not equal
+TcEq(s, c1, c2) ==
+    LET a == s.tcs[c1]  b == s.tcs[c2] IN
+    IF a.times # b.times THEN "F"            \* then both hold equally many emulsions (Aligned)
+    ELSE AllT([i \in Range(Len(a.ems)) |-> IF a.ems[i] = b.ems[i] THEN "T" ELSE EmEq(s, a.ems[i], b.ems[i])])
+TrkEq(s, k1, k2) ==
+    IF s.trks[k1].times # s.trks[k2].times THEN "F" ELSE SeqEq(Vals(s, s.trks[k1].objs), Vals(s, s.trks[k2].objs))
+\* time_overlaps: the closed time spans [start, end] of two non-empty tracks intersect
+TimeOverlap(a, b) == a[1] <= b[Len(b)] /\ b[1] <= a[Len(a)]
 Queries(s) ==
     [em  |-> [e \in Range(Len(s.ems)) |->
                  IF AllDim1(Vals(s, s.ems[e].mem)) THEN EmQ(Vals(s, s.ems[e].mem)) ELSE Q0],
+     emeq |-> [e1 \in Range(Len(s.ev)) |-> [e2 \in Range(Len(s.ev)) |-> EmEq(s, s.ev[e1], s.ev[e2])]],
+     tceq |-> [c1 \in Range(Len(s.tcs)) |-> [c2 \in Range(Len(s.tcs)) |-> TcEq(s, c1, c2)]],
+     trkeq |-> [k1 \in Range(Len(s.trks)) |-> [k2 \in Range(Len(s.trks)) |-> TrkEq(s, k1, k2)]],
+     tov |-> [k1 \in Range(Len(s.trks)) |-> [k2 \in Range(Len(s.trks)) |->
+                 IF Len(s.trks[k1].times) = 0 \/ Len(s.trks[k2].times) = 0 THEN "na"
+                 ELSE IF TimeOverlap(s.trks[k1].times, s.trks[k2].times) THEN "T" ELSE "F"]],
      dur |-> [k \in Range(Len(s.trks)) |-> Duration(s.trks[k].times)],
      near |-> [c \in Range(Len(s.tcs)) |->
                  IF Len(s.tcs[c].times) = 0 THEN <<>>
@@ -486,7 +508,7 @@ TrkSave ==
 TrkLoad ==
     /\ Go("TrkLoad") /\ Len(st.trks) < MaxTrks
     /\ \E p \in 1..2 :
-        /\ st.files[p].kind = "trk"
+        /\ st.files[p].kind \in {"trk", "tl"}      \* a track list file with exactly one track reads as a track
         /\ IF Len(st.files[p].sets) # 1 THEN Commit([op |-> "TrkLoad", p |-> p], st, "RuntimeError")
            ELSE LET d == st.files[p].sets[1]
                     base == Len(st.drops)
@@ -514,7 +536,103 @@ TlRemoveShort ==
         Commit([op |-> "TlRemoveShort", l |-> l, md |-> md],
                [st EXCEPT !.tls[l] = SelectSeq(@, LAMBDA k : Duration(st.trks[k].times) > md)], "")
 
+(* ------------------- tracking on the heap: from_emulsion_time_course ------------------- *)
+\* The tracker reads a time course and builds NEW tracks of NEW droplet objects (DropletTrack.append copies), so the
+\* time course, its emulsions and their droplets stay what they were and nothing of the result aliases the input.
+\* The matching itself is Tracking.tla's (C06/C07), here on the 1-D rational geometry of this heap:
+\*   overlap : a droplet extends the one alive track whose LAST droplet (read now, i.e. possibly appended in this
+\*             very frame) it overlaps; with none or several it starts a track
+\*   distance: closest pair first (first minimum in row-major order), rows/columns used once, cut-off max_dist
+\* A track is alive if its last time EQUALS the previous frame's time (the code compares time stamps, so with repeated
+\* or non-monotone times -- which a time course accepts -- a track that ended earlier at that same time is alive too).
+LastOf(q) == q[Len(q)]
+Overlaps1(a, b) == RLt(RAbs(RSub(a.x, b.x)), RInt(a.r + b.r))
+Dist1(a, b) == RAbs(RSub(a.x, b.x))
+\* run = [s: heap state, tr: Seq([times, objs])]
+RunAdd(run, k, d, t) ==
+    LET c == CopyObjs(run.s, <<d>>)
+    IN [s |-> c.s, tr |-> [run.tr EXCEPT ![k] = [times |-> Append(@.times, t), objs |-> Append(@.objs, c.ids[1])]]]
+RunNew(run, d, t) ==
+    LET c == CopyObjs(run.s, <<d>>)
+    IN [s |-> c.s, tr |-> Append(run.tr, [times |-> <<t>>, objs |-> c.ids])]
+RECURSIVE OvFrame(_, _, _, _)
+OvFrame(run, alive, mem, t) ==
+    IF Len(mem) = 0 THEN run
+    ELSE LET d == Head(mem)
+             ov == SelectSeq(alive, LAMBDA k : Overlaps1(run.s.drops[LastOf(run.tr[k].objs)], run.s.drops[d]))
+         IN OvFrame(IF Len(ov) = 1 THEN RunAdd(run, ov[1], d, t) ELSE RunNew(run, d, t), alive, Tail(mem), t)
+\* closest pair first; rows = alive tracks, columns = droplets of the frame
+RECURSIVE DiPick(_, _, _, _, _, _, _)
+DiPick(run, alive, mem, t, md, rows, cols) ==
+    LET D(p) == Dist1(run.s.drops[LastOf(run.tr[alive[p[1]]].objs)], run.s.drops[mem[p[2]]])
+        P == {p \in (Range(Len(alive)) \ rows) \X (Range(Len(mem)) \ cols) : md < 0 \/ RLe(D(p), RInt(md))}
+        Before(p, q) == p[1] < q[1] \/ (p[1] = q[1] /\ p[2] < q[2])
+    IN IF P = {} THEN [run |-> run, cols |-> cols]
+       ELSE LET mp == CHOOSE p \in P : \A q \in P : q # p => (RLt(D(p), D(q)) \/ (~RLt(D(q), D(p)) /\ Before(p, q)))
+            IN DiPick(RunAdd(run, alive[mp[1]], mem[mp[2]], t), alive, mem, t, md, rows \cup {mp[1]}, cols \cup {mp[2]})
+RECURSIVE DiRest(_, _, _, _, _)
+DiRest(run, mem, t, cols, j) ==
+    IF j > Len(mem) THEN run
+    ELSE DiRest(IF j \in cols THEN run ELSE RunNew(run, mem[j], t), mem, t, cols, j + 1)
+DiFrame(run, alive, mem, t, md) ==
+    LET a == IF Len(alive) > 0 /\ Len(mem) > 0 THEN DiPick(run, alive, mem, t, md, {}, {}) ELSE [run |-> run, cols |-> {}]
+    IN DiRest(a.run, mem, t, a.cols, 1)
+RECURSIVE TrackFrames(_, _, _, _)
+TrackFrames(run, tc, f, m) ==
+    IF f > Len(tc.ems) THEN run
+    ELSE LET alive == IF f = 1 THEN <<>>
+                      ELSE SelectSeq([k \in Range(Len(run.tr)) |-> k], LAMBDA k : LastOf(run.tr[k].times) = tc.times[f - 1])
+             mem == run.s.ems[tc.ems[f]].mem
+             r2 == IF m.meth = "overlap" THEN OvFrame(run, alive, mem, tc.times[f])
+                   ELSE DiFrame(run, alive, mem, tc.times[f], m.md)
+         IN TrackFrames(r2, tc, f + 1, m)
+TlFromTc ==
+    /\ Go("TlFromTc") /\ Len(st.tls) < MaxTls
+    /\ \E c \in Range(Len(st.tcs)), m \in TrackMethods :
+        LET tc == st.tcs[c] IN
+        /\ \A i \in Range(Len(tc.ems)) : AllDim1(Vals(st, st.ems[tc.ems[i]].mem))
+        /\ RoomD(TotalMembers(st, tc.ems))
+        /\ LET run == TrackFrames([s |-> st, tr |-> <<>>], tc, 1, m)
+               base == Len(st.trks)
+           IN /\ base + Len(run.tr) <= MaxTrks
+              /\ Commit([op |-> "TlFromTc", c |-> c, meth |-> m.meth, md |-> m.md],
+                        [run.s EXCEPT !.trks = @ \o run.tr,
+                                      !.tls = Append(@, [i \in Range(Len(run.tr)) |-> base + i])], "")
+
+\* DropletTrackList.to_file: one dataset per track, in order; a track that cannot be stored raises and leaves the tracks
+\* before it in the (truncated) file.  from_file: every dataset becomes a new track of new droplets, in key order.
+RECURSIVE StorableTracks(_, _)
+StorableTracks(s, ids) == IF Len(ids) = 0 \/ ~Storable(Vals(s, s.trks[Head(ids)].objs)) THEN 0
+                          ELSE 1 + StorableTracks(s, Tail(ids))
+TlSave ==
+    /\ Go("TlSave")
+    /\ \E l \in Range(Len(st.tls)), p \in 1..2 :
+        LET ids == st.tls[l]
+            k == StorableTracks(st, ids)
+            sets == [i \in Range(k) |-> DataSet(Vals(st, st.trks[ids[i]].objs), 0, st.trks[ids[i]].times)]
+        IN Commit([op |-> "TlSave", l |-> l, p |-> p], [st EXCEPT !.files[p] = [kind |-> "tl", sets |-> sets]],
+                  IF k = Len(ids) THEN "" ELSE "TypeError")
+RECURSIVE LoadTracks(_, _, _)
+LoadTracks(s, sets, acc) ==
+    IF Len(sets) = 0 THEN [s |-> s, trs |-> acc]
+    ELSE LET d == Head(sets)
+             base == Len(s.drops)
+         IN LoadTracks([s EXCEPT !.drops = @ \o d.vals], Tail(sets),
+                       Append(acc, [times |-> d.times, objs |-> [i \in Range(Len(d.vals)) |-> base + i]]))
+TlLoad ==
+    /\ Go("TlLoad") /\ Len(st.tls) < MaxTls
+    /\ \E p \in 1..2 :
+        /\ st.files[p].kind \in {"tl", "trk"}       \* a single track's file is a track list of one track
+        /\ LET sets == st.files[p].sets
+               nd == LET RECURSIVE T(_) T(q) == IF Len(q) = 0 THEN 0 ELSE Len(Head(q).vals) + T(Tail(q)) IN T(sets)
+               l == LoadTracks(st, sets, <<>>)
+               base == Len(st.trks)
+           IN /\ base + Len(sets) <= MaxTrks /\ RoomD(nd)
+              /\ Commit([op |-> "TlLoad", p |-> p],
+                        [l.s EXCEPT !.trks = @ \o l.trs, !.tls = Append(@, [i \in Range(Len(sets)) |-> base + i])], "")
+
 Next ==
+    \/ TlFromTc \/ TlSave \/ TlLoad
     \/ EmSave \/ EmLoad \/ TcSave \/ TcLoad \/ TrkSave \/ TrkLoad
     \/ TlNew \/ TlSlice \/ TlRemoveShort
     \/ EmNew \/ EmAppend \/ EmExtend \/ EmCopy \/ EmSlice \/ EmIndex \/ EmAdd \/ EmRemoveSmall
@@ -550,6 +668,27 @@ ArrShared == SeqSet(st.arr) \subseteq st.shared
 \* objects are never freed or renumbered; existing collections are only edited through their own id
 \* a file written by a call that did not raise holds exactly one dataset per member
 FilesWellFormed == \A p \in 1..2 : st.files[p].kind \in {"em", "trk"} => Len(st.files[p].sets) <= 1
+\* tracking (C06 on the heap): for EVERY reachable time course and every method, the tracks the tracker would return
+\* hold exactly the (droplet value, frame time) pairs of the time course, as fresh objects nobody else holds, every
+\* track aligned, and the tracker leaves the heap it read untouched
+RECURSIVE Flat(_)
+Flat(ss) == IF Len(ss) = 0 THEN <<>> ELSE Head(ss) \o Flat(Tail(ss))
+CountIn(q, x) == Cardinality({i \in Range(Len(q)) : q[i] = x})
+SameBag(a, b) == Len(a) = Len(b) /\ \A x \in SeqSet(a) \cup SeqSet(b) : CountIn(a, x) = CountIn(b, x)
+TcPairs(s, tc) == Flat([f \in Range(Len(tc.ems)) |->
+                         [j \in Range(Len(s.ems[tc.ems[f]].mem)) |-> <<s.drops[s.ems[tc.ems[f]].mem[j]], tc.times[f]>>]])
+TrPairs(run) == Flat([k \in Range(Len(run.tr)) |->
+                        [j \in Range(Len(run.tr[k].objs)) |-> <<run.s.drops[run.tr[k].objs[j]], run.tr[k].times[j]>>]])
+TrackingConserves ==
+    \A c \in Range(Len(st.tcs)), m \in TrackMethods :
+        (\A i \in Range(Len(st.tcs[c].ems)) : AllDim1(Vals(st, st.ems[st.tcs[c].ems[i]].mem))) =>
+            LET run == TrackFrames([s |-> st, tr |-> <<>>], st.tcs[c], 1, m)
+                objs == Flat([k \in Range(Len(run.tr)) |-> run.tr[k].objs])
+            IN /\ SameBag(TrPairs(run), TcPairs(st, st.tcs[c]))
+               /\ \A k \in Range(Len(run.tr)) : Len(run.tr[k].times) = Len(run.tr[k].objs) /\ Len(run.tr[k].objs) > 0
+               /\ \A i \in Range(Len(objs)) : objs[i] > Len(st.drops) /\ \A j \in Range(Len(objs)) : i # j => objs[i] # objs[j]
+               /\ SubSeq(run.s.drops, 1, Len(st.drops)) = st.drops
+               /\ run.s.ems = st.ems /\ run.s.tcs = st.tcs /\ run.s.refs = st.refs /\ run.s.ev = st.ev
 \* a track list only ever refers to existing tracks
 TlValid == \A l \in Range(Len(st.tls)) : \A i \in Range(Len(st.tls[l])) : st.tls[l][i] \in Range(Len(st.trks))
 HeapGrows == [][/\ Len(st'.drops) >= Len(st.drops) /\ Len(st'.ems) >= Len(st.ems)
